@@ -7,6 +7,7 @@ Invariant: every map object in the store is well-formed with keys in `K` (`MapsO
 import EPV.Lemmas.MapArrayMergeRefine
 import EPV.Lemmas.MapArrayArrays
 import EPV.Lemmas.MapArrayHeap
+import EPV.Lemmas.MapArrayHof
 namespace EPV.MapArray
 open Spec
 
@@ -208,13 +209,52 @@ theorem callFn_eq (s : Store) (f arg : Seq) :
     · rfl
   · rfl
 
+omit hA in
+/-- `deepEqSeq` depends on the dialect only through `atomEq`, `mapHas`, `mapGet` -/
+theorem deepEq_congr (d1 d2 : Dialect) (h1 : d1.atomEq = d2.atomEq) (h2 : d1.mapHas = d2.mapHas)
+    (h3 : d1.mapGet = d2.mapGet) (s : Store) (fuel : Nat) :
+    (∀ v1 v2, deepEqSeq d1 s fuel v1 v2 = deepEqSeq d2 s fuel v1 v2) ∧
+    (∀ i1 i2, deepEqItem d1 s fuel i1 i2 = deepEqItem d2 s fuel i1 i2) := by
+  induction fuel with
+  | zero =>
+    refine ⟨fun _ _ => rfl, fun i1 i2 => ?_⟩
+    cases i1 <;> cases i2 <;> simp [deepEqItem, h1]
+  | succ n ih =>
+    constructor
+    · intro v1 v2
+      simp only [deepEqSeq]
+      congr 2
+      funext p
+      exact ih.2 p.1 p.2
+    · intro i1 i2
+      cases i1 <;> cases i2 <;> simp only [deepEqItem, h1]
+      rename_i a b
+      cases s[a]? with
+      | none => rfl
+      | some o1 =>
+        cases s[b]? with
+        | none => cases o1 <;> rfl
+        | some o2 =>
+          cases o1 <;> cases o2 <;> simp only
+          · congr 2; funext p; exact ih.1 p.1 p.2
+          · rw [h2, h3]; congr 2; funext e; rw [ih.1]
+
+omit hA in
+/-- deep-equal of the Python transcriptions = deep-equal of the F&O definitions, for all values -/
+theorem deepEq_py_eq_spec (s : Store) (fuel : Nat) (v1 v2 : Seq) :
+    deepEqSeq (pyDialect false) s fuel v1 v2 = deepEqSeq specDialect s fuel v1 v2 := by
+  refine (deepEq_congr _ _ ?_ ?_ ?_ s fuel).1 v1 v2
+  · funext a b; exact pyAtomEq_eq_spec a b
+  · funext es k; exact dictHas_eq_contains fun x _ => (key_identity_all x.1 k).1
+  · funext es k; exact mapGet_eq_spec es k fun e _ => (key_identity_all e.1 k).1
+
 /-- the literal keys of the operation are in `K`, and no `?` lookup has a boolean key -/
 def OpOK (K : List Key) (op : Op) : Prop :=
-  (∀ k ∈ opKeys op, k ∈ K) ∧ opIsDeq op = false
+  ∀ k ∈ opKeys op, k ∈ K
 
 theorem evalOp_refine (st : St) (hM : MapsOK K st.store) (op : Op) (hop : OpOK K op) :
     evalOp (pyDialect false) st op = evalOp specDialect st op := by
-  obtain ⟨hkeys, hdeq⟩ := hop
+  have hkeys := hop
   cases op with
   | seq parts => rfl
   | mCtor es =>
@@ -308,7 +348,7 @@ theorem evalOp_refine (st : St) (hM : MapsOK K st.store) (op : Op) (hop : OpOK K
   | aFoldR a z f => rfl
   | aForEachPair a b f => rfl
   | mForEachF m f => rfl
-  | deq a b => simp [opIsDeq] at hdeq
+  | deq a b => simp only [evalOp, deepEq_py_eq_spec]
   | call f k first => simp only [evalOp, callFn_eq]
   | call2 t k1 k2 =>
     simp only [evalOp, callFn_eq]
@@ -399,7 +439,7 @@ theorem ok_alloc_arr {s s' : Store} {ms : List Seq} {v' : Seq} (hM : MapsOK K s)
 
 theorem evalOp_spec_MapsOK (st : St) (hM : MapsOK K st.store) (op : Op) (hop : OpOK K op)
     (s' : Store) (v : Seq) (h : evalOp specDialect st op = .ok (s', v)) : MapsOK K s' := by
-  obtain ⟨hkeys, hdq⟩ := hop
+  have hkeys := hop
   cases op <;> simp only [evalOp, specDialect, writeBack, Bool.false_eq_true, ↓reduceIte] at h
   case mCtor es =>
     refine liftAlloc_map_ok hM (fun es' hes' => spec_construct_ok hA (fun e he => ?_) hes') h
